@@ -237,8 +237,8 @@ def _worker(job):
 
 def scope(tier: str):
     if tier == "quick":
-        return {"depths": [1, 2], "max_rows": 3, "cap": 40, "per_spec": 5, "depth3_per_spec": 0}
-    return {"depths": [1, 2, 3], "max_rows": 4, "cap": 64, "per_spec": 10, "depth3_per_spec": 3}
+        return {"depths": [1, 2], "max_rows": 3, "cap": 40, "per_spec": 3, "depth3_per_spec": 0}
+    return {"depths": [1, 2, 3], "max_rows": 4, "cap": 64, "per_spec": 8, "depth3_per_spec": 2}
 
 
 def make_cases(tier: str, seed: int, backends=BACKENDS):
